@@ -43,6 +43,9 @@ FIXES = [
     ("fix: MockToken.ToMinCoin returns an error", "D20", ["C20"], "regress/C20/d20-main-unit-price-overflows-conversion.json"),
     ("fix: the requests-of-a-batch and responses-of-a-batch queries", "D21", ["C17"], "regress/C17/d21-batch-queries-accept-a-short-context-id.json"),
     ("fix: keep what a module does to its context", "D22", ["C09"], "regress/C09/d22-kill-inside-response-callback-undone.json"),
+    ("fix: the bindings-of-an-owner listing returns only", "D23", ["C17"], "regress/C17/d23-owner-listing-answers-for-another-owner-and-service.json"),
+    ("fix: MockToken.ToMinCoin also rejects", "D24", ["C20"], "regress/C20/d24-decimal-price-beyond-the-integer-range.json"),
+    ("fix: reject a time promotion outside", "D25", ["C20"], "regress/C20/d25-promotion-window-before-year-one.json"),
 ]
 
 
